@@ -37,6 +37,7 @@
 #else
 #include <endian.h>
 #endif
+#include <limits.h>
 #include <zck.h>
 
 #include "zck_private.h"
@@ -125,6 +126,14 @@ bool index_read(zckCtx *zck, char *data, size_t size, size_t max_length) {
                             count);
             return false;
         }
+        /* Chunk offsets and sizes are reported as ssize_t, and offsets are the
+         * running sum of the stored sizes: reject anything that can't be
+         * represented instead of wrapping */
+        if(chunk_length > SSIZE_MAX - idx_loc ||
+           idx_loc + chunk_length > SSIZE_MAX - (zck->lead_size + zck->header_length)) {
+            set_fatal_error(zck, "Chunk %i compressed size is too large", count);
+            return false;
+        }
         new->start = idx_loc;
         new->comp_length = chunk_length;
 
@@ -134,6 +143,10 @@ bool index_read(zckCtx *zck, char *data, size_t size, size_t max_length) {
                             max_length)) {
             set_fatal_error(zck, "Unable to read chunk %i uncompressed size",
                             count);
+            return false;
+        }
+        if(chunk_length > SSIZE_MAX) {
+            set_fatal_error(zck, "Chunk %i uncompressed size is too large", count);
             return false;
         }
         new->length = chunk_length;
